@@ -86,7 +86,7 @@ Accepts(env, C, a) ==
             /\ a.valid
             /\ ~\E m \in C.meta : m.node = a.p /\ m.schema[1] = a.schema
       [] a.op = "detach"   -> \E m \in C.meta : m.node = a.p /\ m.schema[1] = a.schema
-      [] a.op = "reserved" -> FALSE
+      [] a.op \in {"reserved", "passthrough"} -> FALSE
       [] a.op \in TreeOps  -> H5!Apply(C.tree, a).ok
       [] OTHER -> TRUE
 
@@ -141,6 +141,7 @@ DriverClauses(env, a, pd, d) ==
     \cup (IF ~UuidsStable(C, a, P, ok) THEN {"uuids_stable"} ELSE {})
     \cup (IF ~ok /\ P # C THEN {"failed_op_changes_nothing"} ELSE {})
     \cup (IF a.op = "reserved" /\ (ok \/ P # C) THEN {"reserved_rejected_without_effect"} ELSE {})
+    \cup (IF a.op = "passthrough" /\ (ok \/ P # C) THEN {"unsupported_not_passed_through"} ELSE {})
     \cup (IF ~TocSync(env, P) THEN {"toc_sync"} ELSE {})
     \cup (IF d.empties # <<>> THEN {"no_empty_bookkeeping_groups"} ELSE {})
     \cup (IF d.weird # <<>> THEN {"no_unexpected_reserved_nodes"} ELSE {})
